@@ -400,11 +400,17 @@ def main_check(modname: str, tier: str, seed: int, jobs: int, budget_s: float) -
         print(f"HARNESS-ERROR property={prop}: {len(total['harness_errors'])} scenario(s) failed inside the harness")
         print(total["harness_errors"][0])
         return 2
-    if total["replay_divergences"]:
-        print(f"HARNESS-ERROR property={prop}: {total['replay_divergences']} replay divergence(s): "
-              f"{total['divergent'][:2]}")
-        return 2
     known = load_known()
+    if total["replay_divergences"]:
+        # the same (scenario, choices) gave different observations twice: on the unchanged tree that is a harness
+        # defect; when violations were found as well, state leaking between executions inside hypercorn is the
+        # likelier cause and the violations (each found within ONE execution on a fresh world) are the verdict
+        if not any(match_known(prop, v, known) is None for v in total["violations"]):
+            print(f"HARNESS-ERROR property={prop}: {total['replay_divergences']} replay divergence(s): "
+                  f"{total['divergent'][:2]}")
+            return 2
+        print(f"NOTE property={prop}: {total['replay_divergences']} replay divergence(s) (state survives from one "
+              f"execution to the next); violations below were each observed within a single execution")
     hits: Dict[str, dict] = {}
     unknown: Dict[Tuple[str, str], dict] = {}
     for v in total["violations"]:
